@@ -764,7 +764,10 @@ impl<T: Storage> RaftCore<T> {
         // will append the entries to the existing MsgAppend
         let mut is_batched = false;
         for msg in msgs {
-            if msg.get_msg_type() == MessageType::MsgAppend && msg.to == to {
+            // Only an append of the current term can be extended: a message queued in an
+            // earlier term of this node keeps that term's stamp and is stale for its receiver.
+            if msg.get_msg_type() == MessageType::MsgAppend && msg.to == to && msg.term == self.term
+            {
                 if !ents.is_empty() {
                     if !util::is_continuous_ents(msg, ents) {
                         return is_batched;
